@@ -38,6 +38,10 @@ def gen_cases(ctx, n, full_every=6):
             rng.shuffle(perm)
             g["indict"]["dynamics"] = [g["indict"]["dynamics"][p] for p in perm]
         g["stop"] = (i % full_every) != 0
+        if i % 7 == 3:
+            # every variable must still be in exactly one solver when the analytic solver is switched off (complete run: the cover is judged on the result)
+            g["flags"] = {"disable_analytic_solver": True}
+            g["stop"] = False
         cases.append(g)
         i += 1
     return cases
